@@ -95,6 +95,10 @@ func H_Durable() {
 		if vp.NoPanic("C11.nopanic", func() { err = t.Update(pool[i], val, w) }) {
 			return false
 		}
+		// inside the known regions the live trie may hold references to nodes that were never
+		// saved or were deleted: a later mutation that has to load them fails
+		vp.Known("C11.update-ok", "root-read-before-commit", durKF1)
+		vp.Known("C11.update-ok", "gc-pass-over-uncommitted-changes", gcDirty)
 		vp.Assert("C11.update-ok", err == nil)
 		ref.Put(pool[i], val, w)
 		uncommitted = true
@@ -117,7 +121,9 @@ func H_Durable() {
 			return false
 		}
 		durRoot, durWeight, durRef, haveDurable = root, t.Weight(), ref.Clone(), true
-		durKF1 = rootReadDirty
+		// the damage of a root read before a commit persists (the nodes whose dirty flags it cleared
+		// stay unsaved until they are rewritten): the region is sticky
+		durKF1 = durKF1 || rootReadDirty
 		uncommitted, rootReadDirty = false, false
 		return true
 	}
@@ -154,6 +160,8 @@ func H_Durable() {
 			if vp.NoPanic("C11.nopanic", func() { err = t.Update(pool[i], nil, 0) }) {
 				return
 			}
+			vp.Known("C11.delete-ok", "root-read-before-commit", durKF1)
+			vp.Known("C11.delete-ok", "gc-pass-over-uncommitted-changes", gcDirty)
 			vp.Assert("C11.delete-ok", err == nil)
 			ref.Del(pool[i])
 			uncommitted = true
